@@ -300,6 +300,9 @@ def rule_exact_rate(ctx: Ctx, rep: Report) -> None:
     mi = ctx.module("btclib.fee")
     n = 0
     for fi in sorted(mi.functions.values(), key=lambda f: f.qualname):
+        # the conversions *into* the exact representation: functions that build a FeeRate
+        if not any(isinstance(c, ast.Call) and (norm(c.func) in ("cls", "FeeRate")) for c in own_nodes(fi.node)):
+            continue
         decs = {norm(t) for a in own_nodes(fi.node) if isinstance(a, ast.Assign) and isinstance(a.value, ast.Call) and call_name(a.value) == "Decimal" for t in a.targets if isinstance(t, ast.Name)}
         for d in sorted(decs):
             n += 1
